@@ -498,6 +498,9 @@ pub fn run(ctx: &mut Ctx) -> Result<(), Violation> {
         run_prop("C04", "untrusted-input-string", seed.wrapping_mul(983).wrapping_add(sh), per / 2, "\\PC{0,80}", ev, |s, ev| run_str(s, "random-utf8", ev))?;
         run_prop("C04", "untrusted-input-string", seed.wrapping_mul(991).wrapping_add(sh), per / 2, "[$=,mtpv0-9a-zA-Z+/]{0,120}", ev, |s, ev| run_str(s, "random-grammar-alphabet", ev))
     })?;
+    // replay the committed fuzz corpora (golden seeds + anything a libFuzzer campaign added) through the plain oracle
+    let verif = std::env::var("VERIF_DIR").unwrap_or("/verif".into());
+    replay_corpus(&format!("{verif}/corpus/untrusted"), &mut ctx.ev)?;
     ctx.ev.sample_cap = 30;
     Ok(())
 }
@@ -519,4 +522,84 @@ pub fn replay(v: &Violation) -> Result<(), String> {
         return Ok(());
     }
     exec(&c).map(|_| ())
+}
+
+// ---------------------------------------------------------------- byte-level encoding shared with the libFuzzer target
+pub fn all_entries() -> Vec<Entry> {
+    let mut entries: Vec<Entry> = AEAD_ENTRIES.iter().map(|o| Entry::Aead(*o)).collect();
+    entries.extend([
+        Entry::SignOpen, Entry::SignVerifyDetached, Entry::SignFinalVerify, Entry::SignedMessageVerify, Entry::AuthVerify, Entry::AuthObjVerify,
+        Entry::OtaVerify, Entry::OtaObjVerify, Entry::PwStrVerify, Entry::PwNeedsRehash, Entry::PwFromStringVerify,
+    ]);
+    entries
+}
+
+/// layout: [entry selector][keyseed selector (4 key sets)][ad: 0 = none, else ad length = byte-1 taken from the tail][payload...]
+pub fn decode_fuzz_input(data: &[u8]) -> Option<Case> {
+    if data.len() < 3 {
+        return None;
+    }
+    let entries = all_entries();
+    let entry = entries[data[0] as usize % entries.len()];
+    let keyseed = (data[1] % 4) as u64 + 0xf00d;
+    let mut payload = &data[3..];
+    let mut ad = None;
+    if matches!(entry, Entry::Aead(o) if o.kind() == Kind::Stream) && data[2] != 0 {
+        let n = (data[2] as usize - 1).min(payload.len());
+        ad = Some(Hex(payload[payload.len() - n..].to_vec()));
+        payload = &payload[..payload.len() - n];
+    }
+    Some(Case { entry, keyseed, input: Hex(payload.to_vec()), class: "fuzz".into(), ad })
+}
+
+pub fn encode_fuzz_input(entry_index: usize, keysel: u8, payload: &[u8]) -> Vec<u8> {
+    let mut v = vec![entry_index as u8, keysel, 0];
+    v.extend_from_slice(payload);
+    v
+}
+
+/// golden seed corpus: authentic inputs for every entry (written once; committed under /verif/corpus)
+pub fn write_seed_corpus(dir: &str) -> std::io::Result<usize> {
+    std::fs::create_dir_all(dir)?;
+    let entries = all_entries();
+    let mut n = 0;
+    for (i, e) in entries.iter().enumerate() {
+        for keysel in 0..2u8 {
+            let k = keys(keysel as u64 + 0xf00d);
+            let mut f = Fill::new(i as u64, "corpus");
+            if e.is_pw() {
+                let s = [
+                    sodium::pwhash_str(&k.password, 1, 8192, sodium::ALG_ARGON2ID13).unwrap(),
+                    sodium::pwhash_str(&k.password, 3, 8192, sodium::ALG_ARGON2I13).unwrap(),
+                    sodium::argon2_encoded(sodium::ALG_ARGON2ID13, 2, 17, &k.password, &[7u8; 24], 48).unwrap(),
+                ];
+                for (j, st) in s.iter().enumerate() {
+                    std::fs::write(format!("{dir}/seed-{i:02}-{keysel}-{j}"), encode_fuzz_input(i, keysel, st.as_bytes()))?;
+                    n += 1;
+                }
+            } else {
+                for (j, len) in [0usize, 1, 20, 100].iter().enumerate() {
+                    let w = authentic(*e, &k, &f.bytes(*len), (j % 4) as u8);
+                    std::fs::write(format!("{dir}/seed-{i:02}-{keysel}-{j}"), encode_fuzz_input(i, keysel, &w))?;
+                    n += 1;
+                }
+            }
+        }
+    }
+    Ok(n)
+}
+
+/// replay every file of a corpus directory through the plain oracle (no fuzzer involved)
+pub fn replay_corpus(dir: &str, ev: &mut Evidence) -> Result<(), Violation> {
+    let Ok(rd) = std::fs::read_dir(dir) else { return Ok(()) };
+    let mut files: Vec<_> = rd.filter_map(|e| e.ok()).map(|e| e.path()).collect();
+    files.sort();
+    for p in files {
+        let Ok(data) = std::fs::read(&p) else { continue };
+        let Some(c) = decode_fuzz_input(&data) else { continue };
+        ev.eval(1);
+        ev.class("corpus-replay");
+        exec(&c).map_err(|m| Violation::new("C04", "untrusted-input", format!("{m} (corpus file {})", p.display()), serde_json::to_value(&c).unwrap()))?;
+    }
+    Ok(())
 }
